@@ -397,7 +397,7 @@ func runC04(c *Ctx, variant int) {
 		s.rbuf = make([]byte, 8)
 		s.armRead()
 	}
-	steps := w.Range(5, 40)
+	steps := w.Range(5, c.Deep(40))
 	for i := 0; i < steps; i++ {
 		switch w.Choose(12) {
 		case 0, 1:
